@@ -12,17 +12,24 @@ META = {
     "C01": {
         "engine": "recordstore", "level": "model_checking",
         "technique": "TLA+ state machine of the disk-backed store with its spawned write/delete bodies and completion notes; TLC exhaustive (bounded) + simulation; behaviours replayed into the real NodeRecordStore through task gates; every real step validated by TLC against the clause operators and the model",
-        "text": "C01's clauses (GetSound on every read-back, SettledReadback in every settled state) are evaluated by TLC on all bounded behaviours of the implementation-shaped model "
+        "text": "C01's clauses (GetSound on every read-back, SettledReadback in every settled state, NoCrash on every store call, ListedViewsAgree -- contains / RecordStoreHasKey, "
+                "record_addresses / GetAllLocalRecordAddresses and the quote's already-stored flag equal the index -- on every step, ListedType -- the listed record type is that of the value served, "
+                "values being chunks, scratchpads, transactions and registers -- in every settled state and after every restart) are evaluated by TLC on all bounded behaviours of the implementation-shaped model "
                 "(every order of the background bodies of different keys and of the completion notes) and on every step recorded from the real store driven through the same behaviours "
                 "plus random ones; byte-exactness is checked by the driver's value table (unknown bytes map to an id no clause accepts).",
         "note": _common_note, "design_ref": "5 Area RecordStore",
     },
     "C10": {
         "engine": "recordstore", "level": "model_checking",
-        "technique": "same model and traces as C01; clauses Capacity, Admission, ViewsAgree, CleanupOnlyOutside, QuoteExact",
-        "text": "Capacity/admission/eviction/clean-up/quote clauses are step predicates over the index, the distance index, the cached farthest record and the quote figures; TLC checks them on the model "
+        "technique": "same model and traces as C01; clauses Capacity, Admission, BelowCapacityAccepts, NoSpuriousLoss, ViewsAgree, CleanupOnlyOutside, QuoteExact, PaySurvivesRestart",
+        "text": "NoSpuriousLoss: the index loses a key only by remove, a failed-write report, an effective clean-up (keys outside the range) or a put at capacity (the farthest record); "
+                "BelowCapacityAccepts: below capacity even counting every write in flight a put is accepted and nothing is lost; ranges are set exactly ON a key's distance, strictly between two keys, "
+                "beyond every key, and set again (also after a restart). Capacity/admission/eviction/clean-up/quote clauses are step predicates over the index, the distance index, the cached farthest record and the quote figures; TLC checks them on the model "
                 "and on every real step (bursts of unacknowledged writes are ordinary behaviours because notes are delivered only when the behaviour says so).",
-        "note": _common_note + "; the real clean-up threshold (1638 records) is reached in the padded runs with 1636 / 1635 acknowledged filler records closer than every model key", "design_ref": "5 Area RecordStore",
+        "note": _common_note + "; the real clean-up threshold (1638 records) is reached in the padded runs with 1636 / 1635 acknowledged filler records closer than every model key; "
+                                "the padded clean-up is followed by its deletes / a restart, new range and second clean-up / a crash after the first delete / a put; "
+                                "a put at capacity of a key ALREADY held may evict the farthest record (not covered by C10's statement; counted in coverage.held_key_put_evicted_farthest); "
+                                "C01_ListedType does not judge keys whose completion notes overtook each other unless VERIF_ENABLE_STALETYPE=1 (coverage.stale_type_not_judged)", "design_ref": "5 Area RecordStore",
     },
 }
 META["C02"] = {
@@ -30,7 +37,7 @@ META["C02"] = {
     "technique": "same store model extended with Crash/Restart (pending bodies and notes lost, optionally one torn file); TLC places the crash after every prefix of every bounded behaviour; replayed on the real store by dropping the parked bodies and reopening the directory with the same identity; torn files are byte prefixes of the real ciphertext",
     "text": "C02's clauses (NoCorruptAfterRestart, CompletedWritesDurable, RemovalsStay) are evaluated on the Restart step of every behaviour: TLC enumerates all crash points of the bounded model "
             "(every subset of released bodies) and simulates deeper ones; the driver realises each on the real store (parked bodies are never released, the directory is reopened with the same "
-            "peer id and encryption seed) and cuts the file of the write in progress at 0,1,2,15,16,17,len/2,len-17,len-16,len-1 bytes (thorough: every prefix length, round-robin over runs).",
+            "peer id and encryption seed) (also in the padded clean-up runs) and cuts the files of the writes in progress (one or several) at 0,1,2,15,16,17,len/2,len-17,len-16,len-1 bytes (thorough: every prefix length, round-robin over runs).",
     "note": _common_note + "; a completed fs::write is durable and a torn write leaves a byte prefix (no block-level reordering); crash points are driven on a store built with with_config and a fixed seed; a further run restarts a node built by build_node (seed re-derived from the peer id, driver.rs)",
     "design_ref": "5 Area RecordStore",
 }
